@@ -509,7 +509,7 @@ def job_pattern(which, size, occ, notes):
         for nm, g, w in zip(('F', 'P', 'R'), got, want):
             A.observe(nm, g)
             A.require(A.eq(g, w), 'pattern.%s_FPR.%s==Collins-definition' % (which, nm), want=w)
-    return Job('C04', 'pattern.%s_FPR[%s,occ=%s,notes=%d]' % (which, 'x'.join(map(str, size)), occ, notes), build, body,
+    return Job('C04', 'pattern.%s_FPR[%s,occ=%s,notes=%s]' % (which, 'x'.join(map(str, size)), occ, notes), build, body,
                funcs=['pattern.%s_FPR' % which, 'pattern._compute_score_matrix', 'pattern._occurrence_intersection'], bounds=dict(size=size), timeout_s=2400)
 
 
@@ -582,4 +582,9 @@ def jobs(tier):
         for size, occ, notes in ([((1, 1), (1, 1), 1), ((2, 1), (1, 1), 1), ((1, 1), (2, 1), 1)] if q else
                                  [((1, 1), (1, 1), 1), ((2, 1), (1, 1), 1), ((1, 1), (2, 1), 1), ((2, 2), (1, 1), 1), ((1, 1), (1, 1), 2), ((1, 1), (2, 2), 1)]):
             js.append(job_pattern(which, size, occ, notes))
+        if which != 'three_layer':
+            # occurrences of different sizes: the cardinality score divides by the larger one
+            js.append(job_pattern(which, (1, 1), (1, 1), (1, 2)))
+            if not q:
+                js.append(job_pattern(which, (1, 1), (1, 1), (2, 1)))
     return js
